@@ -177,6 +177,7 @@ fn make_hosts(setup: Setup, program: &Cmd, rng: &mut Rng, max_layers: usize) -> 
                 HostSlot::new(Box::new(StreamHost::<d::Effect>::new()), 0),
                 HostSlot::new(Box::new(EagerHost::<m::Effect>::new()), 0),
                 HostSlot::new(Box::new(StreamHost::<m::Effect>::lagging()), 0),
+                HostSlot::new(Box::new(Direct::<d::Effect>::lagging()), 0),
                 nested(rng, 1, false),
                 nested(rng, 1, true),
                 HostSlot::new(Box::new(CoreHost::<AppM>::new(false)), 2),
